@@ -14,7 +14,7 @@ Definition at_id (l : list transition) (j : N) (t : transition) : Prop :=
 
 Record IxInv (l : list transition) (f : frz) (x : indexer) : Prop := {
   x_done : ix_done x = true;
-  x_meta : ix_meta x = Some (len l);
+  x_meta : match ix_meta x with Some m => m = len l | None => l = [] end;
   x_sorted : forall k, StronglySorted N.lt (ix_index x k);
   x_range : forall k j, In j (ix_index x k) -> 0 < j /\ j <= len l;
   x_spec : forall k j t, fr_tail f < j -> at_id l j t -> (In j (ix_index x k) <-> touches t k) }.
@@ -109,17 +109,18 @@ Qed.
 
 (* a reader is only granted for a canonical root whose state id is retained, and it
    remembers exactly that id *)
-Lemma historic_reader_ok r0 l0 st x root id :
+Lemma historic_reader_ok r0 l0 st x root rd :
   CInv r0 l0 st -> ix st = Some x ->
-  historic_reader st root = Ok id ->
-  ids st root = Some id /\ fr_tail (fr st) <= id /\ id < len l0 /\
-  exists pre t l, l0 = pre ++ t :: l /\ len l = id /\ root_rev r0 l = root.
+  historic_reader st root = Ok rd ->
+  rd_root rd = root /\
+  ids st root = Some (rd_id rd) /\ fr_tail (fr st) <= rd_id rd /\ rd_id rd < len l0 /\
+  exists pre t l, l0 = pre ++ t :: l /\ len l = rd_id rd /\ root_rev r0 l = root.
 Proof.
   intros [R Hh Ht] Hix H. unfold historic_reader in H. rewrite Hix in H.
   destruct (ix_done x); simpl in H; [|discriminate].
   destruct (ids st root) as [i|] eqn:Ei; [|discriminate].
   destruct (fr_read (fr st) (i + 1)) as [h|] eqn:Er; [|discriminate].
-  destruct (h_parent h =? root) eqn:Ep; [|discriminate]. injection H as <-. apply N.eqb_eq in Ep.
+  destruct (h_parent h =? root) eqn:Ep; [|discriminate]. injection H as <-. simpl. apply N.eqb_eq in Ep.
   unfold fr_read in Er.
   destruct (fr_tail (fr st) <? i + 1) eqn:E1; [|discriminate]. apply N.ltb_lt in E1.
   destruct (i + 1 <=? fr_head (fr st)) eqn:E2; [|discriminate]. apply N.leb_le in E2.
@@ -128,21 +129,35 @@ Proof.
   assert (Htl : fr_tail (fr st) < len (t :: l)) by (rewrite len_cons; lia).
   assert (Hd := frz_ok_data r0 (fr st) pre l0 t l (i_frz _ _ _ R) E Htl).
   rewrite len_cons, Hl in Hd. simpl in Er. rewrite Hd in Er. injection Er as <-. simpl in Ep.
-  split; [reflexivity|]. split; [lia|]. split; [exact Hlt|].
+  split; [reflexivity|]. split; [reflexivity|]. split; [lia|]. split; [exact Hlt|].
   exists pre, t, l. auto.
 Qed.
 
 (* every read through a reader for a retained state id below the disk layer returns
    exactly the value of that state *)
-Theorem reader_read_correct r0 l0 st x id pre l :
+Theorem reader_read_correct r0 l0 st x rd pre l :
   CInv r0 l0 st -> ix st = Some x -> IxInv l0 (fr st) x ->
-  l0 = pre ++ l -> len l = id -> fr_tail (fr st) <= id ->
-  forall k, reader_read st id k = Ok (sem_rev l k).
+  l0 = pre ++ l -> pre <> [] -> len l = rd_id rd -> root_rev r0 l = rd_root rd ->
+  fr_tail (fr st) <= rd_id rd ->
+  forall k, reader_read st rd k = Ok (sem_rev l k).
 Proof.
-  intros C Hix X El Hl Ht k. destruct C as [R Hh Htl]. destruct R as [D Hhl F W I].
+  intros C Hix X El Hpre Hl Hroot Ht k. set (id := rd_id rd) in *.
+  destruct C as [R Hh Htl]. destruct R as [D Hhl F W I].
   unfold reader_read. rewrite Hix.
+  (* the re-validation passes: history id+1 is retained and starts from the root *)
+  assert (Hv : reader_verify st rd = None).
+  { unfold reader_verify. destruct (cfg_legacy_reader (cfg st)); [reflexivity|].
+    destruct (exists_last Hpre) as [pre0 [t0 Ep]].
+    assert (E0 : l0 = pre0 ++ t0 :: l) by (rewrite El, Ep, <- app_assoc; reflexivity).
+    assert (Ht0 : fr_tail (fr st) < len (t0 :: l)) by (rewrite len_cons; lia).
+    assert (Hr := frz_ok_read r0 (fr st) l0 pre0 t0 l F Hhl E0 Ht0).
+    rewrite len_cons, Hl in Hr. fold id. rewrite Hr. simpl h_parent. rewrite Hroot, N.eqb_refl. reflexivity. }
+  rewrite Hv. fold id.
   replace (id <? fr_tail (fr st)) with false by (symmetry; apply N.ltb_ge; exact Ht).
-  rewrite (x_meta _ _ _ X), (i_id _ _ _ D). rewrite N.ltb_irrefl.
+  assert (Hm : ix_meta x = Some (len l0)).
+  { assert (M := x_meta _ _ _ X). destruct (ix_meta x) as [m|]; [congruence|].
+    subst l0. destruct pre; [contradiction|discriminate]. }
+  rewrite Hm, (i_id _ _ _ D). rewrite N.ltb_irrefl.
   destruct (find_gt (ix_index x k) id) as [j|] eqn:Ef.
   - destruct (find_gt_some _ _ _ (x_sorted _ _ _ X k) Ef) as [Hin [Hgt Hmin]].
     destruct (x_range _ _ _ X k j Hin) as [Hj0 Hjl].
@@ -195,15 +210,52 @@ Qed.
 (* the complete read: reader creation and read in one step *)
 Theorem hist_read_correct r0 l0 st x root :
   CInv r0 l0 st -> ix st = Some x -> IxInv l0 (fr st) x ->
-  forall id, historic_reader st root = Ok id ->
-  exists pre l, l0 = pre ++ l /\ len l = id /\ root_rev r0 l = root /\
+  forall rd, historic_reader st root = Ok rd ->
+  exists pre l, l0 = pre ++ l /\ len l = rd_id rd /\ root_rev r0 l = root /\
                 forall k, hist_read st root k = Ok (sem_rev l k).
 Proof.
-  intros C Hix X id H.
-  destruct (historic_reader_ok r0 l0 st x root id C Hix H) as [_ [Ht [_ [pre [t [l [E [Hl Hr]]]]]]]].
+  intros C Hix X rd H.
+  destruct (historic_reader_ok r0 l0 st x root rd C Hix H) as [Hrt [_ [Ht [_ [pre [t [l [E [Hl Hr]]]]]]]]].
   exists (pre ++ [t]), l. split; [rewrite <- app_assoc; exact E|]. split; [exact Hl|]. split; [exact Hr|].
   intro k. unfold hist_read. rewrite H.
-  apply (reader_read_correct r0 l0 st x id (pre ++ [t]) l); auto. rewrite <- app_assoc. exact E.
+  apply (reader_read_correct r0 l0 st x rd (pre ++ [t]) l); auto.
+  - rewrite <- app_assoc. exact E.
+  - destruct pre; discriminate.
+  - congruence.
+Qed.
+
+(* a reader kept across ANY later operations (commits, tail pruning, rollbacks, other
+   forks) either refuses or still answers with the value of its own root's state: with
+   the re-validation, an answer implies that the root is canonical at the remembered id *)
+Theorem kept_reader_sound r0 l0 st x rd :
+  CInv r0 l0 st -> ix st = Some x -> IxInv l0 (fr st) x ->
+  cfg_legacy_reader (cfg st) = false ->
+  forall k v, reader_read st rd k = Ok v ->
+  exists pre l, l0 = pre ++ l /\ len l = rd_id rd /\ root_rev r0 l = rd_root rd /\ v = sem_rev l k.
+Proof.
+  intros C Hix X Hleg k v H.
+  assert (Hv : reader_verify st rd = None).
+  { unfold reader_read in H. rewrite Hix in H. destruct (reader_verify st rd); [discriminate|reflexivity]. }
+  unfold reader_verify in Hv. rewrite Hleg in Hv.
+  destruct (fr_read (fr st) (rd_id rd + 1)) as [h|] eqn:Er; [|discriminate].
+  destruct (h_parent h =? rd_root rd) eqn:Ep; [|discriminate]. apply N.eqb_eq in Ep.
+  destruct C as [R Hh Htl]. 
+  unfold fr_read in Er.
+  destruct (fr_tail (fr st) <? rd_id rd + 1) eqn:E1; [|discriminate]. apply N.ltb_lt in E1.
+  destruct (rd_id rd + 1 <=? fr_head (fr st)) eqn:E2; [|discriminate]. apply N.leb_le in E2.
+  assert (Hlt : rd_id rd < len l0) by lia.
+  destruct (split_at_len l0 (rd_id rd) Hlt) as [pre [t [l [E Hl]]]].
+  assert (Htl' : fr_tail (fr st) < len (t :: l)) by (rewrite len_cons; lia).
+  assert (Hd := frz_ok_data r0 (fr st) pre l0 t l (i_frz _ _ _ R) E Htl').
+  rewrite len_cons, Hl in Hd. simpl in Er. rewrite Hd in Er. injection Er as <-. simpl in Ep.
+  exists (pre ++ [t]), l. split; [rewrite <- app_assoc; exact E|]. split; [exact Hl|]. split; [exact Ep|].
+  assert (Hc : reader_read st rd k = Ok (sem_rev l k)).
+  { apply (reader_read_correct r0 l0 st x rd (pre ++ [t]) l); auto.
+    - constructor; auto.
+    - rewrite <- app_assoc. exact E.
+    - destruct pre; discriminate.
+    - lia. }
+  congruence.
 Qed.
 
 (* roots outside the retained canonical range are refused, never answered *)
@@ -215,9 +267,9 @@ Theorem refuses_unretained r0 l0 st x root :
   forall k, exists e, hist_read st root k = Err e.
 Proof.
   intros C Hix H k. unfold hist_read.
-  destruct (historic_reader st root) as [id|e] eqn:Eh; [|exists e; reflexivity].
+  destruct (historic_reader st root) as [rd|e] eqn:Eh; [|exists e; reflexivity].
   exfalso.
-  destruct (historic_reader_ok r0 l0 st x root id C Hix Eh) as [Hi [Ht [Hl [pre [t [l [E [Hlen Hr]]]]]]]].
+  destruct (historic_reader_ok r0 l0 st x root rd C Hix Eh) as [_ [Hi [Ht [Hl [pre [t [l [E [Hlen Hr]]]]]]]]].
   destruct H as [H|[[i [Hi' H]]|[i [l' [pre' [Hi' [E' [Hl' Hr']]]]]]]].
   - congruence.
   - rewrite Hi in Hi'. injection Hi' as <-. lia.
@@ -390,7 +442,7 @@ Proof. intros [pre [r [E Hj]]]. subst. unfold len. rewrite app_length. simpl. li
 Theorem extend_preserves r0 l t f x :
   IxInv l f x -> wf_tr (sem_rev l) t ->
   fr_read f (len (t :: l)) = Some (mkHist (root_rev r0 l) (t_root t) (origs t)) ->
-  exists x', index_single f x (len (t :: l)) = Ok x' /\ IxInv (t :: l) f x'.
+  exists x', index_single false f x (len (t :: l)) = Ok x' /\ IxInv (t :: l) f x'.
 Proof.
   intros X W Hr. destruct X as [Xd Xm Xs Xr Xp].
   set (id := len (t :: l)). assert (Hid : id = len l + 1) by (unfold id; apply len_cons).
@@ -398,7 +450,10 @@ Proof.
   destruct (ix_fold_append_ok (map c_key (t_changes t)) (ix_index x) id ND) as [idx' [Hf [H1 H2]]].
   - lia.
   - intros k _ j Hj. destruct (Xr k j Hj). lia.
-  - unfold index_single. rewrite Xm.
+  - unfold index_single.
+    assert (Em : (match ix_meta x with Some m => Some m | None => Some 0 end) = Some (len l)).
+    { destruct (ix_meta x); [congruence|]. subst l. reflexivity. }
+    rewrite Em.
     replace (len l + 1 =? id) with true by (symmetry; apply N.eqb_eq; lia).
     unfold read_history. fold id in Hr. rewrite Hr. rewrite (decodable_wf _ _ _ _ W).
     simpl h_origs. rewrite map_fst_origs. rewrite Hf.
@@ -429,14 +484,14 @@ Qed.
    keep at least one transition: unindexing history 1 deletes the metadata (see
    C18_rollback_to_genesis_refuted) *)
 Theorem shorten_preserves r0 l t f x :
-  IxInv (t :: l) f x -> wf_tr (sem_rev l) t -> l <> [] ->
+  IxInv (t :: l) f x -> wf_tr (sem_rev l) t ->
   fr_tail f < len (t :: l) ->
   fr_read f (len (t :: l)) = Some (mkHist (root_rev r0 l) (t_root t) (origs t)) ->
   exists x', unindex_single f x (len (t :: l)) = Ok x' /\ IxInv l f x'.
 Proof.
-  intros X W Hne Ht Hr. destruct X as [Xd Xm Xs Xr Xp].
+  intros X W Ht Hr. destruct X as [Xd Xm Xs Xr Xp].
   set (id := len (t :: l)) in *. assert (Hid : id = len l + 1) by (unfold id; apply len_cons).
-  assert (Hl1 : 1 <= len l) by (destruct l; [contradiction|unfold len; simpl; lia]).
+  destruct (ix_meta x) as [m0|] eqn:Em0; [|discriminate]. subst m0.
   assert (ND := w_nodup _ _ W).
   assert (Hat : at_id (t :: l) id t) by (exists [], l; auto).
   destruct (ix_fold_pop_ok (map c_key (t_changes t)) (ix_index x) id ND) as [idx' [Hf [H1 H2]]].
@@ -445,10 +500,9 @@ Proof.
     + apply (Xp k id t Ht Hat). exact Hk.
     + intros y Hy. destruct (Xr k y Hy). fold id in H0. exact H0.
     + exists b. exact Eb.
-  - unfold unindex_single. rewrite Xm. fold id. rewrite N.eqb_refl.
+  - unfold unindex_single. rewrite Em0. fold id. rewrite N.eqb_refl.
     unfold read_history. rewrite Hr. rewrite (decodable_wf _ _ _ _ W).
     simpl h_origs. rewrite map_fst_origs. rewrite Hf.
-    replace (id =? 1) with false by (symmetry; apply N.eqb_neq; lia).
     eexists. split; [reflexivity|].
     assert (Hsub : forall k j, In j (idx' k) -> In j (ix_index x k) /\ j <> id).
     { intros k j Hj. destruct (in_dec key_dec k (map c_key (t_changes t))) as [Hk|Hk].
@@ -462,7 +516,9 @@ Proof.
         apply Hk. apply (Xp k id t Ht Hat). exact Hj. }
     constructor; cbn [ix_done ix_dead ix_last ix_meta ix_bg ix_index].
     + exact Xd.
-    + f_equal. lia.
+    + destruct (id =? 1) eqn:E1.
+      * apply N.eqb_eq in E1. destruct l; [reflexivity|unfold len in *; simpl in *; lia].
+      * lia.
     + intro k. destruct (in_dec key_dec k (map c_key (t_changes t))) as [Hk|Hk].
       * assert (S := Xs k). rewrite (H1 k Hk) in S. apply SS_app_l in S. exact S.
       * rewrite H2 by exact Hk. apply Xs.
@@ -477,8 +533,9 @@ Qed.
 
 (* ---------- concrete histories ------------------------------------------------------------ *)
 
-Definition ex18_run (limit : N) (ops : list (db -> out)) : db :=
-  fold_left (fun s f => outcome_state (f s)) ops (init_db (mkCfg limit true 128) 0 true).
+(* [legacy] = the code before the two repairs *)
+Definition ex18_run (legacy : bool) (limit : N) (ops : list (db -> out)) : db :=
+  fold_left (fun s f => outcome_state (f s)) ops (init_db (mkCfg limit true 128 legacy legacy legacy) 0 true).
 
 Definition up (parent : N) (t : transition) : db -> out := fun s => update s parent t.
 
@@ -487,14 +544,18 @@ Definition up (parent : N) (t : transition) : db -> out := fun s => update s par
 Definition ex_t3' : transition := mkTr 13 [mkChange (KA 1) 6 20; mkChange (KA 0) 0 21].
 Definition ex_t4 : transition := mkTr 4 [mkChange (KA 1) 10 11].
 
-Definition ex18_a : db :=
-  ex18_run 3 [up 0 ex_t1; up 1 ex_t2; up 2 ex_t3; up 3 ex_t4; (fun s => commit s 4)].
-Definition ex18_b : db :=
-  ex18_run 3 [up 0 ex_t1; up 1 ex_t2; up 2 ex_t3; up 3 ex_t4; (fun s => commit s 4);
-              (fun s => recover s 2); up 2 ex_t3'; (fun s => commit s 13)].
+Definition ex18_ops_a : list (db -> out) :=
+  [up 0 ex_t1; up 1 ex_t2; up 2 ex_t3; up 3 ex_t4; (fun s => commit s 4)].
+Definition ex18_ops_b : list (db -> out) :=
+  ex18_ops_a ++ [(fun s => recover s 2); up 2 ex_t3'; (fun s => commit s 13)].
+Definition ex18_a : db := ex18_run false 3 ex18_ops_a.
+Definition ex18_b : db := ex18_run false 3 ex18_ops_b.
 
 Definition res_eqb (r : res N) (v : N) : bool := match r with Ok x => x =? v | Err _ => false end.
 Definition is_err (r : res N) : bool := match r with Ok _ => false | Err _ => true end.
+
+(* a reader for root 3 (account 0 = 8, account 1 = 10) created in ex18_a *)
+Definition ex18_rd3 : hreader := mkRd 3 3.
 
 Definition ex18_check : bool :=
   (fr_tail (fr ex18_a) =? 1) && (disk_id (dk ex18_a) =? 4) &&
@@ -504,27 +565,32 @@ Definition ex18_check : bool :=
   (* root 2: account 0 destructed; root 3: re-created *)
   res_eqb (hist_read ex18_a 2 (KA 0)) 0 && res_eqb (hist_read ex18_a 2 (KS 0 1)) 0 &&
   res_eqb (hist_read ex18_a 3 (KA 0)) 8 && res_eqb (hist_read ex18_a 3 (KA 1)) 10 &&
+  res_eqb (reader_read ex18_a ex18_rd3 (KA 1)) 10 &&
   (* refused: genesis root (pruned), the disk root itself, an unknown root *)
   is_err (hist_read ex18_a 0 (KA 0)) && is_err (hist_read ex18_a 4 (KA 0)) &&
   is_err (hist_read ex18_a 99 (KA 0)) &&
-  (* after the rollback and the new fork: root 2 reads the same, root 3 is refused *)
+  (* after the rollback and the new fork (which reaches id 3 again): root 2 reads the
+     same, the abandoned root 3 is refused -- also through the reader kept from before *)
   (disk_id (dk ex18_b) =? 3) && res_eqb (hist_read ex18_b 2 (KA 1)) 6 &&
-  res_eqb (hist_read ex18_b 2 (KA 0)) 0 && is_err (hist_read ex18_b 3 (KA 0)).
+  res_eqb (hist_read ex18_b 2 (KA 0)) 0 && is_err (hist_read ex18_b 3 (KA 0)) &&
+  is_err (reader_read ex18_b ex18_rd3 (KA 1)) && is_err (reader_read ex18_b ex18_rd3 (KA 0)).
 
 (* rollback to state id 0 with indexing enabled: unindexing history 1 deletes the index
-   metadata; the next commit writes its history and then fails in indexSingle *)
-Definition ex18_g : db := ex18_run 0 [up 0 ex_t1; (fun s => commit s 1)].
+   metadata.  Repaired code: the next commit is indexed again.  Legacy code: it writes
+   its history and then fails in indexSingle. *)
+Definition ex18_g (legacy : bool) : db := ex18_run legacy 0 [up 0 ex_t1; (fun s => commit s 1)].
 Definition ex_d1 : diff := mkDiff 1 1 ex_t1.
 
 Definition ex18_genesis_check : bool :=
-  recoverable ex18_g 0 &&
-  match recover ex18_g 0 with
+  recoverable (ex18_g false) 0 &&
+  match recover (ex18_g false) 0 with
   | Done s =>
       (disk_id (dk s) =? 0) &&
       match ix s with Some x => match ix_meta x with None => true | Some _ => false end | None => false end &&
       match disk_commit s ex_d1 true with
-      | Fail EIndexOrder s' => (fr_head (fr s') =? 1) && (disk_id (dk s') =? 0)
-      | _ => false
+      | Done s' => (fr_head (fr s') =? 1) && (disk_id (dk s') =? 1) &&
+                   match ix s' with Some x => match ix_meta x with Some 1 => true | _ => false end | None => false end
+      | Fail _ _ => false
       end
   | Fail _ _ => false
   end.
@@ -547,19 +613,21 @@ Proof. destruct o; simpl; intro H; [reflexivity|discriminate]. Qed.
 Lemma out_fail o e : out_err o = Some e -> o = Fail e (outcome_state o).
 Proof. destruct o; simpl; intro H; [discriminate|injection H as ->; reflexivity]. Qed.
 
-Definition ex18_g0 : db := outcome_state (recover ex18_g 0).
+Definition ex18_g0 : db := outcome_state (recover (ex18_g true) 0).
 
-(* FULL statement that is false: "after Recover to any recoverable root, committing a
-   well-formed transition succeeds and is indexed". *)
+(* LEGACY code (cfg_legacy_meta = true), FULL statement that was false: "after Recover
+   to any recoverable root, committing a well-formed transition succeeds and is indexed" *)
 Theorem rollback_to_genesis_refuted :
   exists st root st' d e st'',
+    cfg_legacy_meta (cfg st) = true /\
     recoverable st root = true /\ recover st root = Done st' /\
     wf_tr (eff (dk st')) (d_tr d) /\ d_root d = t_root (d_tr d) /\
     d_id d = disk_id (dk st') + 1 /\
     disk_commit st' d true = Fail e st'' /\
     fr_head (fr st'') = disk_id (dk st'') + 1.
 Proof.
-  exists ex18_g, 0, ex18_g0, ex_d1, EIndexOrder, (outcome_state (disk_commit ex18_g0 ex_d1 true)).
+  exists (ex18_g true), 0, ex18_g0, ex_d1, EIndexOrder, (outcome_state (disk_commit ex18_g0 ex_d1 true)).
+  split; [reflexivity|].
   split; [vm_compute; reflexivity|].
   split; [apply out_done; vm_compute; reflexivity|].
   split.
@@ -571,6 +639,76 @@ Proof.
   vm_compute. reflexivity.
 Qed.
 
+(* LEGACY code (cfg_legacy_reader = true), FULL statement that was false: "a reader
+   answers only with values of its own root's state".  The reader for root 3 is kept
+   across Recover(root 2): account 1 has 10 in state 3, the reader answers 6 (the value
+   of the rolled-back disk layer, state 2) without error. *)
+Definition ex18_la : db := ex18_run true 3 ex18_ops_a.
+Definition ex18_lb : db := outcome_state (recover ex18_la 2).
+
+Theorem kept_reader_refuted :
+  exists st root rd st' k v v',
+    cfg_legacy_reader (cfg st) = true /\
+    historic_reader st root = Ok rd /\ reader_read st rd k = Ok v /\
+    recover st 2 = Done st' /\ reader_read st' rd k = Ok v' /\ v' <> v.
+Proof.
+  exists ex18_la, 3, ex18_rd3, ex18_lb, (KA 1), 10, 6.
+  split; [reflexivity|].
+  split; [vm_compute; reflexivity|].
+  split; [vm_compute; reflexivity|].
+  split; [apply out_done; vm_compute; reflexivity|].
+  split; [vm_compute; reflexivity|discriminate].
+Qed.
+
+(* The indexer still in its initial (background) phase: histories 1..3 are indexed, the
+   4th was announced by extend() while the background call was running (initer.last = 4,
+   metadata.Last = 3).  A rollback of history 4 now arrives. *)
+Definition initing (st : db) : db :=
+  match ix st with
+  | Some x =>
+      match unindex_single (fr st) x 4 with
+      | Ok x3 => set_ix st (Some (mkIx false false 4 (ix_meta x3) None (ix_index x3)))
+      | Err _ => st
+      end
+  | None => st
+  end.
+
+Definition ex18_init (legacy : bool) : db := initing (ex18_run legacy 0 ex18_ops_a).
+
+(* repaired code: the rollback succeeds and the initer keeps running with target 3 *)
+Definition ex18_initer_check : bool :=
+  recoverable (ex18_init false) 3 &&
+  match recover (ex18_init false) 3 with
+  | Done s => (disk_id (dk s) =? 3) &&
+              match ix s with
+              | Some x => negb (ix_dead x) && (ix_last x =? 3) &&
+                          match ix_meta x with Some 3 => true | _ => false end
+              | None => false
+              end
+  | Fail _ _ => false
+  end.
+
+(* LEGACY code (cfg_legacy_initer = true), FULL statement that was false: "Recover of a
+   root reported recoverable succeeds": the initer compares the metadata (3) with the
+   NEW target (3), tries to unindex history 4 which was never indexed, fails, and its
+   goroutine exits (ix_dead): every later extend / shorten blocks. *)
+Theorem initer_shorten_refuted :
+  exists st root e st' x',
+    cfg_legacy_initer (cfg st) = true /\
+    recoverable st root = true /\ recover st root = Fail e st' /\
+    ix st' = Some x' /\ ix_dead x' = true /\ disk_id (dk st') = disk_id (dk st).
+Proof.
+  exists (ex18_init true), 3, EIndexOrder, (outcome_state (recover (ex18_init true) 3)).
+  destruct (ix (outcome_state (recover (ex18_init true) 3))) as [x'|] eqn:E.
+  2:{ exfalso. vm_compute in E. discriminate. }
+  exists x'. split; [reflexivity|]. split; [vm_compute; reflexivity|].
+  split; [apply out_fail; vm_compute; reflexivity|]. split; [reflexivity|].
+  split; [|vm_compute; reflexivity].
+  assert (H : match ix (outcome_state (recover (ex18_init true) 3)) with
+              | Some x => ix_dead x | None => false end = true) by (vm_compute; reflexivity).
+  rewrite E in H. exact H.
+Qed.
+
 Lemma ixinv_frz_ext l f f' x : fr_tail f' = fr_tail f -> IxInv l f x -> IxInv l f' x.
 Proof.
   intros E [Xd Xm Xs Xr Xp]. constructor; auto. intros k j t Hj. rewrite E in Hj. apply Xp. exact Hj.
@@ -579,15 +717,15 @@ Qed.
 (* rollback of the newest transition t, then a different transition t' at the same id:
    the index describes the new fork (so, by hist_read_correct, do all reads) *)
 Theorem shorten_then_extend r0 l t t' f f' x :
-  IxInv (t :: l) f x -> wf_tr (sem_rev l) t -> wf_tr (sem_rev l) t' -> l <> [] ->
+  IxInv (t :: l) f x -> wf_tr (sem_rev l) t -> wf_tr (sem_rev l) t' ->
   fr_tail f < len (t :: l) -> fr_tail f' = fr_tail f ->
   fr_read f (len (t :: l)) = Some (mkHist (root_rev r0 l) (t_root t) (origs t)) ->
   fr_read f' (len (t' :: l)) = Some (mkHist (root_rev r0 l) (t_root t') (origs t')) ->
   exists x1 x2, unindex_single f x (len (t :: l)) = Ok x1 /\ IxInv l f x1 /\
-                index_single f' x1 (len (t' :: l)) = Ok x2 /\ IxInv (t' :: l) f' x2.
+                index_single false f' x1 (len (t' :: l)) = Ok x2 /\ IxInv (t' :: l) f' x2.
 Proof.
-  intros X W W' Hne Ht Et Hr Hr'.
-  destruct (shorten_preserves r0 l t f x X W Hne Ht Hr) as [x1 [H1 X1]].
+  intros X W W' Ht Et Hr Hr'.
+  destruct (shorten_preserves r0 l t f x X W Ht Hr) as [x1 [H1 X1]].
   destruct (extend_preserves r0 l t' f' x1 (ixinv_frz_ext l f f' x1 Et X1) W' Hr') as [x2 [H2 X2]].
   exists x1, x2. auto.
 Qed.
